@@ -13,6 +13,7 @@ mod twins;
 mod plan_w;
 mod patch_w;
 mod engine_w;
+mod cli_w;
 /// the CLI's modules, #[path]-included unedited from the tree under check
 #[allow(dead_code, unused_imports, clippy::all)]
 pub mod cli {
@@ -76,6 +77,9 @@ fn search(contract: &str, seed: u64, budget: u64) -> i32 {
     if c == "greedy" {
         return engine_w::search_pairs(true, seed, budget, false);
     }
+    if c.starts_with("run_") || c.starts_with("cli") {
+        return cli_w::search(c, seed, false);
+    }
     if c.ends_with("::patch") {
         return patch_w::search(c, seed, budget);
     }
@@ -96,6 +100,7 @@ fn run(w: &str) -> i32 {
         "checksum-ops" => checksum_w::run_ops(w),
         "glob" => glob_w::run(w),
         "patch" => patch_w::run(w),
+        "cli" => cli_w::run_w(w),
         "pair" => engine_w::run_pair(w),
         "siggen" => engine_w::run_siggen(w),
         "sigtable" => { println!("re-run: copia-replay twin signature_table <seed> 1"); 1 }
@@ -113,6 +118,7 @@ fn run(w: &str) -> i32 {
 fn twin(name: &str, seed: u64, budget: u64) -> i32 {
     match name {
         "is_excluded" => twins::is_excluded(seed, budget),
+        "cli_chain" => cli_w::search("cli", seed, true),
         "signature_generate" => engine_w::twin_signature_generate(seed, budget),
         "signature_structure" => engine_w::twin_signature_structure(seed, budget),
         "signature_table" => engine_w::twin_signature_table(seed, budget),
